@@ -200,7 +200,10 @@ def config_case(draw, bases=None, generated=True, min_end=None, sampling_focus=F
         for sec, val in sections_with(text, "end_of_run_time"):
             edits.append((sec, "end_of_run_time", repr(end)))
     seed = draw(st.integers(0, 2 ** 31))
-    events = draw(st.integers(max_events[0], max_events[1]))
+    hi = max_events[1]
+    if os.environ.get("VERIF_TIER_ACTIVE") == "thorough" and hi <= 1500:
+        hi = 6000          # longer histories in the thorough tier
+    events = draw(st.integers(max_events[0], hi))
     case = {"base": base, "edits": [list(e) for e in edits], "seed": seed, "events": events}
     if "cell" in base and gen and N >= 3 and draw(st.booleans()):
         # initial configuration contracted into a corner of the box: several units per cell, surplus lists in use
